@@ -211,7 +211,9 @@ def run_driver(cases_path, out_path, shards=16, timeout=3000):
         loads[k] += len(lines[i]) + 50
 
     def one(b):
-        p = subprocess.run([DRIVER], input="\n".join(b) + "\n", stdout=subprocess.PIPE, stderr=subprocess.PIPE,
+        # deep (non-tail) recursion of extracted list functions on multi-megabyte inputs
+        p = subprocess.run(["bash", "-c", f"ulimit -s unlimited 2>/dev/null; exec {DRIVER}"],
+                           input="\n".join(b) + "\n", stdout=subprocess.PIPE, stderr=subprocess.PIPE,
                            text=True, timeout=timeout)
         return p.returncode, p.stdout, p.stderr
 
